@@ -10,7 +10,7 @@ def tokOfF (x : Float) : String := toString x.toBits.toNat
 def nOfTok (s : String) : Nat := s.toNat!
 def bOfTok (s : String) : Bool := s == "1"
 def tokOfB (b : Bool) : String := if b then "1" else "0"
-def maskStr (m : List Bool) : String := String.mk (m.map fun b => if b then '1' else '0')
+def maskStr (m : List Bool) : String := String.ofList (m.map fun b => if b then '1' else '0')
 
 /-- read a length-prefixed list of floats from the token stream -/
 def takeFloats : List String → Option (List Float × List String)
